@@ -378,7 +378,21 @@ def oracle_rp(case, rec):
                       "set_fixed_local_recurrence_rate",
                       "adaptive_neighborhood_size":
                       "set_adaptive_neighborhood_size"}[mode]
+            hk = int(pbt.case_hash(case)[:4], 16)
+            if hk % 2:
+                p2 = param       # back to the value of the construction
             for who, obj in (("network", rn), ("plot", rp)):
+                if hk % 3:
+                    # leave the mode and come back: threshold -> rate ->
+                    # threshold again (a memo keyed on the value must not
+                    # survive the detour)
+                    detour = ("set_fixed_recurrence_rate", 0.5) \
+                        if mode != "recurrence_rate" \
+                        else ("set_fixed_threshold", 1.0)
+                    okd_, _ = rec.call("%s_detour_%s" % (who, detour[0]),
+                                       getattr(obj, detour[0]), detour[1])
+                    if not okd_:
+                        continue
                 oks, _ = rec.call("%s_%s" % (who, setter),
                                   getattr(obj, setter), p2)
                 if not oks:
@@ -453,6 +467,19 @@ def oracle_cross(case, rec):
                   rtol=1e-12)
     check_rqa(rec, cr, "cross", case.get("lmin", 2),
               case.get("seeds") or [1, 2], cross=True)
+    # leave the mode and come back with the same value: the matrix verified
+    # above must come back too
+    own = "set_fixed_threshold" if mode == "threshold" \
+        else "set_fixed_recurrence_rate"
+    detour = ("set_fixed_recurrence_rate", 0.5) if mode == "threshold" \
+        else ("set_fixed_threshold", 1.0)
+    okd_, _ = rec.call("cross_detour_" + detour[0], getattr(cr, detour[0]),
+                       detour[1])
+    if okd_:
+        oks, _ = rec.call("cross_" + own, getattr(cr, own), param)
+        if oks:
+            rec.equal(np.asarray(cr.recurrence_matrix()), CR,
+                      "cross_setter_returns_to_" + mode)
 
 
 # ------------------------------------------------------------ joint oracle
